@@ -52,6 +52,278 @@ package ast
 //@     ==> unbox(unbox(unbox(r.Val, "comb.List")[2].Val, "comb.List")[k].Bag[bagKeyChars], "[]rune")[j] >= 0
 //@   ensures result1
 
+// ---- C10: the attribute functions of the direct construction against their textbook definitions ----
+//
+// gN / gF / gL are the DEFINED nullable / firstpos / lastpos of a node (Aho, Lam, Sethi, Ullman, 3.9.3, for the
+// n-ary nodes used here) and ht its height; defsOK() says so for every node in the heap. The trees are finite and
+// acyclic (ht decreases towards the leaves), so these equations have exactly one solution: the ghost fields are a
+// definition, not an assumption about the code.
+//   Concat e0..ek-1: nullable iff every ei is; firstpos = union of firstpos(ei) over the i whose predecessors are
+//     all nullable; lastpos = union of lastpos(ei) over the i whose successors are all nullable.
+//   Alt: nullable iff some ei is; firstpos / lastpos = the unions. Star: nullable; those of its operand.
+//   Empty: nullable, no positions. Char: not nullable, its own position.
+//@ ghost field Concat.gN bool
+//@ ghost field Concat.gF set[Pos]
+//@ ghost field Concat.gL set[Pos]
+//@ ghost field Concat.ht int
+//@ ghost field Alt.gN bool
+//@ ghost field Alt.gF set[Pos]
+//@ ghost field Alt.gL set[Pos]
+//@ ghost field Alt.ht int
+//@ ghost field Star.gF set[Pos]
+//@ ghost field Star.gL set[Pos]
+//@ ghost field Star.ht int
+//@ spec func isNode(x Node) bool = (typeis(x, "*Concat") && unbox(x, "*Concat") != nil) || (typeis(x, "*Alt") && unbox(x, "*Alt") != nil)
+//@   || (typeis(x, "*Star") && unbox(x, "*Star") != nil) || (typeis(x, "*Empty") && unbox(x, "*Empty") != nil) || (typeis(x, "*Char") && unbox(x, "*Char") != nil)
+//@ spec func nodeHt(x Node) int = typeis(x, "*Concat") ? unbox(x, "*Concat").ht : (typeis(x, "*Alt") ? unbox(x, "*Alt").ht : (typeis(x, "*Star") ? unbox(x, "*Star").ht : 0))
+//@ spec func nodeN(x Node) bool = typeis(x, "*Concat") ? unbox(x, "*Concat").gN : (typeis(x, "*Alt") ? unbox(x, "*Alt").gN : !typeis(x, "*Char"))
+//@ spec func nodeF(x Node) set[Pos] = typeis(x, "*Concat") ? unbox(x, "*Concat").gF : (typeis(x, "*Alt") ? unbox(x, "*Alt").gF
+//@   : (typeis(x, "*Star") ? unbox(x, "*Star").gF : (typeis(x, "*Char") ? setadd(emptyset(Pos), unbox(x, "*Char").Pos) : emptyset(Pos))))
+//@ spec func nodeL(x Node) set[Pos] = typeis(x, "*Concat") ? unbox(x, "*Concat").gL : (typeis(x, "*Alt") ? unbox(x, "*Alt").gL
+//@   : (typeis(x, "*Star") ? unbox(x, "*Star").gL : (typeis(x, "*Char") ? setadd(emptyset(Pos), unbox(x, "*Char").Pos) : emptyset(Pos))))
+// has(s, p): p occurs in the list s
+//@ spec func has(s Poses, p Pos) bool = elem(s, p)
+//@ spec func concatDef(c *Concat) bool = c.ht >= 1
+//@   && (forall k int :: {c.Exprs[k]} 0 <= k && k < len(c.Exprs) ==> isNode(c.Exprs[k]) && 0 <= nodeHt(c.Exprs[k]) && nodeHt(c.Exprs[k]) < c.ht)
+//@   && c.gN == (forall k int :: {c.Exprs[k]} 0 <= k && k < len(c.Exprs) ==> nodeN(c.Exprs[k]))
+//@   && (forall p Pos :: {p in c.gF} (p in c.gF) == (exists i int :: 0 <= i && i < len(c.Exprs) && (p in nodeF(c.Exprs[i])) && (forall j int :: {c.Exprs[j]} 0 <= j && j < i ==> nodeN(c.Exprs[j]))))
+//@   && (forall p Pos :: {p in c.gL} (p in c.gL) == (exists i int :: 0 <= i && i < len(c.Exprs) && (p in nodeL(c.Exprs[i])) && (forall j int :: {c.Exprs[j]} i < j && j < len(c.Exprs) ==> nodeN(c.Exprs[j]))))
+//@ spec func altDef(a *Alt) bool = a.ht >= 1
+//@   && (forall k int :: {a.Exprs[k]} 0 <= k && k < len(a.Exprs) ==> isNode(a.Exprs[k]) && 0 <= nodeHt(a.Exprs[k]) && nodeHt(a.Exprs[k]) < a.ht)
+//@   && a.gN == (exists k int :: 0 <= k && k < len(a.Exprs) && nodeN(a.Exprs[k]))
+//@   && (forall p Pos :: {p in a.gF} (p in a.gF) == (exists i int :: 0 <= i && i < len(a.Exprs) && (p in nodeF(a.Exprs[i]))))
+//@   && (forall p Pos :: {p in a.gL} (p in a.gL) == (exists i int :: 0 <= i && i < len(a.Exprs) && (p in nodeL(a.Exprs[i]))))
+//@ spec func defsOK() bool = (forall c *Concat :: {c.gN} {c.Exprs} {c.ht} c != nil ==> concatDef(c)) && (forall a *Alt :: {a.gN} {a.Exprs} {a.ht} a != nil ==> altDef(a))
+//@   && (forall s *Star :: {s.Expr} {s.ht} s != nil ==> isNode(s.Expr) && 0 <= nodeHt(s.Expr) && nodeHt(s.Expr) < s.ht && s.gF == nodeF(s.Expr) && s.gL == nodeL(s.Expr))
+// a memoised value, where present, is the defined one (for every node up to height h)
+//@ spec func compIs(m *computed, n bool, f set[Pos], l set[Pos]) bool = m.nullable == n
+//@   && (forall p Pos :: {has(m.firstPos, p)} {p in f} has(m.firstPos, p) == (p in f)) && (forall p Pos :: {has(m.lastPos, p)} {p in l} has(m.lastPos, p) == (p in l))
+//@ spec func cacheOK(h int) bool = (forall c *Concat :: {c.comp} c != nil && c.ht <= h && c.comp != nil ==> allocated(c.comp) && compIs(c.comp, c.gN, c.gF, c.gL))
+//@   && (forall a *Alt :: {a.comp} a != nil && a.ht <= h && a.comp != nil ==> allocated(a.comp) && compIs(a.comp, a.gN, a.gF, a.gL))
+// nothing above height h is touched
+//@ spec func aboveKept(h int) bool = (forall c *Concat :: {c.comp} c.ht > h ==> c.comp == old(c.comp)) && (forall a *Alt :: {a.comp} a.ht > h ==> a.comp == old(a.comp))
+// every memo pointer stored in a node refers to an allocated object (heap typing)
+//@ spec func memosAlloc() bool = (forall c *Concat :: {c.comp} allocated(c.comp)) && (forall a *Alt :: {a.comp} allocated(a.comp))
+// a memo object is either the one a node had before or one allocated since (so it is shared with nothing older)
+//@ spec func compsNew() bool = (forall c *Concat :: {c.comp} c.comp == old(c.comp) || fresh(c.comp)) && (forall a *Alt :: {a.comp} a.comp == old(a.comp) || fresh(a.comp))
+// the memo object m of the node being computed belongs to no other node
+//@ spec func ownC(x *Concat) bool = (forall c *Concat :: {c.comp} c != x ==> c.comp != x.comp) && (forall a *Alt :: {a.comp} a.comp != x.comp)
+//@ spec func ownA(x *Alt) bool = (forall c *Concat :: {c.comp} c.comp != x.comp) && (forall a *Alt :: {a.comp} a != x ==> a.comp != x.comp)
+// ... except the node x that is being computed
+//@ spec func aboveKeptC(h int, x *Concat) bool = (forall c *Concat :: {c.comp} c.ht > h && c != x ==> c.comp == old(c.comp)) && (forall a *Alt :: {a.comp} a.ht > h ==> a.comp == old(a.comp))
+//@ spec func aboveKeptA(h int, x *Alt) bool = (forall c *Concat :: {c.comp} c.ht > h ==> c.comp == old(c.comp)) && (forall a *Alt :: {a.comp} a.ht > h && a != x ==> a.comp == old(a.comp))
+
+// the interface methods (every implementation below carries the same contract, specialised to its type)
+//@ func (n Node) nullable() bool
+//@   assumed
+//@   requires isNode(n)
+//@   requires defsOK()
+//@   requires cacheOK(nodeHt(n))
+//@   requires memosAlloc()
+//@   modifies all(Concat.comp), all(Alt.comp)
+//@   ensures result == nodeN(n)
+//@   ensures cacheOK(nodeHt(n))
+//@   ensures aboveKept(nodeHt(n))
+//@   ensures compsNew()
+//@   ensures memosAlloc()
+//@ func (n Node) firstPos() Poses
+//@   assumed
+//@   requires isNode(n)
+//@   requires defsOK()
+//@   requires cacheOK(nodeHt(n))
+//@   requires memosAlloc()
+//@   modifies all(Concat.comp), all(Alt.comp)
+//@   ensures (forall p Pos :: {has(result, p)} {p in unbox(n, "*Concat").gF} {p in unbox(n, "*Alt").gF} {p in unbox(n, "*Star").gF} has(result, p) == (p in nodeF(n)))
+//@   ensures cacheOK(nodeHt(n))
+//@   ensures aboveKept(nodeHt(n))
+//@   ensures compsNew()
+//@   ensures memosAlloc()
+//@ func (n Node) lastPos() Poses
+//@   assumed
+//@   requires isNode(n)
+//@   requires defsOK()
+//@   requires cacheOK(nodeHt(n))
+//@   requires memosAlloc()
+//@   modifies all(Concat.comp), all(Alt.comp)
+//@   ensures (forall p Pos :: {has(result, p)} {p in unbox(n, "*Concat").gL} {p in unbox(n, "*Alt").gL} {p in unbox(n, "*Star").gL} has(result, p) == (p in nodeL(n)))
+//@   ensures cacheOK(nodeHt(n))
+//@   ensures aboveKept(nodeHt(n))
+//@   ensures compsNew()
+//@   ensures memosAlloc()
+
+//@ func (n *Concat) compute()
+//@   requires n != nil
+//@   requires defsOK()
+//@   requires cacheOK(n.ht)
+//@   requires memosAlloc()
+//@   modifies all(Concat.comp), all(Alt.comp)
+//@   loop[0] invariant n.comp != nil
+//@   loop[0] invariant fresh(n.comp)
+//@   loop[0] invariant cacheOK(n.ht - 1)
+//@   loop[0] invariant aboveKeptC(n.ht - 1, n)
+//@   loop[0] invariant ownC(n)
+//@   loop[0] invariant compsNew()
+//@   loop[0] invariant memosAlloc()
+//@   loop[0] invariant len(n.comp.firstPos) == 0
+//@   loop[0] invariant len(n.comp.lastPos) == 0
+//@   loop[0] invariant n.comp.nullable == (forall k int :: {n.Exprs[k]} 0 <= k && k < __i0 ==> nodeN(n.Exprs[k]))
+//@   loop[1] invariant n.comp != nil
+//@   loop[1] invariant fresh(n.comp)
+//@   loop[1] invariant cacheOK(n.ht - 1)
+//@   loop[1] invariant aboveKeptC(n.ht - 1, n)
+//@   loop[1] invariant ownC(n)
+//@   loop[1] invariant compsNew()
+//@   loop[1] invariant memosAlloc()
+//@   loop[1] invariant n.comp.nullable == n.gN
+//@   loop[1] invariant len(n.comp.lastPos) == 0
+//@   loop[1] invariant forall k int :: {n.Exprs[k]} 0 <= k && k < __i1 ==> nodeN(n.Exprs[k])
+//@   loop[1] invariant forall p Pos :: {has(n.comp.firstPos, p)} has(n.comp.firstPos, p) == (exists k int :: 0 <= k && k < __i1 && (p in nodeF(n.Exprs[k])))
+//@   loop[2] invariant n.comp != nil
+//@   loop[2] invariant fresh(n.comp)
+//@   loop[2] invariant cacheOK(n.ht - 1)
+//@   loop[2] invariant aboveKeptC(n.ht - 1, n)
+//@   loop[2] invariant ownC(n)
+//@   loop[2] invariant compsNew()
+//@   loop[2] invariant memosAlloc()
+//@   loop[2] invariant n.comp.nullable == n.gN
+//@   loop[2] invariant -1 <= i
+//@   loop[2] invariant i < len(n.Exprs)
+//@   loop[2] invariant forall p Pos :: {has(n.comp.firstPos, p)} {p in n.gF} has(n.comp.firstPos, p) == (p in n.gF)
+//@   loop[2] invariant forall k int :: {n.Exprs[k]} i < k && k < len(n.Exprs) ==> nodeN(n.Exprs[k])
+//@   loop[2] invariant forall p Pos :: {has(n.comp.lastPos, p)} has(n.comp.lastPos, p) == (exists k int :: i < k && k < len(n.Exprs) && (p in nodeL(n.Exprs[k])))
+//@   ensures n.comp != nil
+//@   ensures @cache cacheOK(n.ht)
+//@   ensures @above aboveKept(n.ht)
+//@   ensures @memo-fresh compsNew()
+//@   ensures @memo-alloc memosAlloc()
+//@ func (n *Concat) nullable() bool
+//@   requires n != nil
+//@   requires defsOK()
+//@   requires cacheOK(n.ht)
+//@   requires memosAlloc()
+//@   modifies all(Concat.comp), all(Alt.comp)
+//@   ensures @textbook result == n.gN
+//@   ensures @cache cacheOK(n.ht)
+//@   ensures @above aboveKept(n.ht)
+//@   ensures @memo-fresh compsNew()
+//@   ensures @memo-alloc memosAlloc()
+//@ func (n *Concat) firstPos() Poses
+//@   requires n != nil
+//@   requires defsOK()
+//@   requires cacheOK(n.ht)
+//@   requires memosAlloc()
+//@   modifies all(Concat.comp), all(Alt.comp)
+//@   ensures @textbook (forall p Pos :: {has(result, p)} {p in n.gF} has(result, p) == (p in n.gF))
+//@   ensures @cache cacheOK(n.ht)
+//@   ensures @above aboveKept(n.ht)
+//@   ensures @memo-fresh compsNew()
+//@   ensures @memo-alloc memosAlloc()
+//@ func (n *Concat) lastPos() Poses
+//@   requires n != nil
+//@   requires defsOK()
+//@   requires cacheOK(n.ht)
+//@   requires memosAlloc()
+//@   modifies all(Concat.comp), all(Alt.comp)
+//@   ensures @textbook (forall p Pos :: {has(result, p)} {p in n.gL} has(result, p) == (p in n.gL))
+//@   ensures @cache cacheOK(n.ht)
+//@   ensures @above aboveKept(n.ht)
+//@   ensures @memo-fresh compsNew()
+//@   ensures @memo-alloc memosAlloc()
+
+//@ func (n *Alt) compute()
+//@   requires n != nil
+//@   requires defsOK()
+//@   requires cacheOK(n.ht)
+//@   requires memosAlloc()
+//@   modifies all(Concat.comp), all(Alt.comp)
+//@   loop[0] invariant n.comp != nil
+//@   loop[0] invariant fresh(n.comp)
+//@   loop[0] invariant cacheOK(n.ht - 1)
+//@   loop[0] invariant aboveKeptA(n.ht - 1, n)
+//@   loop[0] invariant ownA(n)
+//@   loop[0] invariant compsNew()
+//@   loop[0] invariant memosAlloc()
+//@   loop[0] invariant n.comp.nullable == (exists k int :: 0 <= k && k < __i0 && nodeN(n.Exprs[k]))
+//@   loop[0] invariant forall p Pos :: {has(n.comp.firstPos, p)} has(n.comp.firstPos, p) == (exists k int :: 0 <= k && k < __i0 && (p in nodeF(n.Exprs[k])))
+//@   loop[0] invariant forall p Pos :: {has(n.comp.lastPos, p)} has(n.comp.lastPos, p) == (exists k int :: 0 <= k && k < __i0 && (p in nodeL(n.Exprs[k])))
+//@   ensures n.comp != nil
+//@   ensures @cache cacheOK(n.ht)
+//@   ensures @above aboveKept(n.ht)
+//@   ensures @memo-fresh compsNew()
+//@   ensures @memo-alloc memosAlloc()
+//@ func (n *Alt) nullable() bool
+//@   requires n != nil
+//@   requires defsOK()
+//@   requires cacheOK(n.ht)
+//@   requires memosAlloc()
+//@   modifies all(Concat.comp), all(Alt.comp)
+//@   ensures @textbook result == n.gN
+//@   ensures @cache cacheOK(n.ht)
+//@   ensures @above aboveKept(n.ht)
+//@   ensures @memo-fresh compsNew()
+//@   ensures @memo-alloc memosAlloc()
+//@ func (n *Alt) firstPos() Poses
+//@   requires n != nil
+//@   requires defsOK()
+//@   requires cacheOK(n.ht)
+//@   requires memosAlloc()
+//@   modifies all(Concat.comp), all(Alt.comp)
+//@   ensures @textbook (forall p Pos :: {has(result, p)} {p in n.gF} has(result, p) == (p in n.gF))
+//@   ensures @cache cacheOK(n.ht)
+//@   ensures @above aboveKept(n.ht)
+//@   ensures @memo-fresh compsNew()
+//@   ensures @memo-alloc memosAlloc()
+//@ func (n *Alt) lastPos() Poses
+//@   requires n != nil
+//@   requires defsOK()
+//@   requires cacheOK(n.ht)
+//@   requires memosAlloc()
+//@   modifies all(Concat.comp), all(Alt.comp)
+//@   ensures @textbook (forall p Pos :: {has(result, p)} {p in n.gL} has(result, p) == (p in n.gL))
+//@   ensures @cache cacheOK(n.ht)
+//@   ensures @above aboveKept(n.ht)
+//@   ensures @memo-fresh compsNew()
+//@   ensures @memo-alloc memosAlloc()
+
+//@ func (n *Star) nullable() bool
+//@   ensures @textbook result
+//@ func (n *Star) firstPos() Poses
+//@   requires n != nil
+//@   requires defsOK()
+//@   requires cacheOK(n.ht)
+//@   requires memosAlloc()
+//@   modifies all(Concat.comp), all(Alt.comp)
+//@   ensures @textbook (forall p Pos :: {has(result, p)} {p in n.gF} has(result, p) == (p in n.gF))
+//@   ensures @cache cacheOK(n.ht)
+//@   ensures @above aboveKept(n.ht)
+//@   ensures @memo-fresh compsNew()
+//@   ensures @memo-alloc memosAlloc()
+//@ func (n *Star) lastPos() Poses
+//@   requires n != nil
+//@   requires defsOK()
+//@   requires cacheOK(n.ht)
+//@   requires memosAlloc()
+//@   modifies all(Concat.comp), all(Alt.comp)
+//@   ensures @textbook (forall p Pos :: {has(result, p)} {p in n.gL} has(result, p) == (p in n.gL))
+//@   ensures @cache cacheOK(n.ht)
+//@   ensures @above aboveKept(n.ht)
+//@   ensures @memo-fresh compsNew()
+//@   ensures @memo-alloc memosAlloc()
+//@ func (n *Empty) nullable() bool
+//@   ensures @textbook result
+//@ func (n *Empty) firstPos() Poses
+//@   ensures @textbook len(result) == 0
+//@ func (n *Empty) lastPos() Poses
+//@   ensures @textbook len(result) == 0
+//@ func (n *Char) nullable() bool
+//@   ensures @textbook !result
+//@ func (n *Char) firstPos() Poses
+//@   requires n != nil
+//@   ensures @textbook len(result) == 1 && result[0] == n.Pos
+//@ func (n *Char) lastPos() Poses
+//@   requires n != nil
+//@   ensures @textbook len(result) == 1 && result[0] == n.Pos
+
 // Parse: any recorded semantic error and any syntax failure is returned; success never comes with a nil tree.
 //@ func Parse(regex string) (*AST, error)
 //@   modifies everything
